@@ -198,9 +198,9 @@ func c05Scenario(r *vx.Rand) {
 }
 
 func runC05() {
-	n := 420
+	n := 2000
 	if run.Thorough() {
-		n = 7000
+		n = 40000
 	}
 	for i := 0; i < n; i++ {
 		c05Scenario(rnd.Fork())
